@@ -312,6 +312,10 @@ def judge_exec(sim, rec, res, case):
         if named:
             res.count('exec_named_checked')
             res.see('cancel_points', 'exec:%s' % spec['cancel'])
+            if not kinds and 'watchdog' in sim.notes:
+                res.inconc('watchdog fired before the history went idle '
+                           '(%s not handed over yet)' % uid)
+                continue
             if not kinds:
                 res.violation('named-task-left-behind', '%s (%s): %s'
                               % (uid, spec['cancel'], r['order']), ctx)
@@ -348,6 +352,10 @@ def judge_exec(sim, rec, res, case):
             if spec['timeout']:
                 continue
             res.count('bystanders_compared')
+            if not kinds and 'watchdog' in sim.notes:
+                res.inconc('watchdog fired before the history went idle '
+                           '(%s not handed over yet)' % uid)
+                continue
             if not kinds:
                 res.violation('bystander-left-behind', '%s: %s'
                               % (uid, r['order']), ctx)
